@@ -98,6 +98,24 @@ pub fn gen(tier: &str, seed: u64, out: &mut dyn FnMut(Value)) {
             out(single_test_case(op, &lit, &events, &mut rng, &format!("op {}", OPS[op].0)));
         }
     }
+    // keywords are lower case only: any other spelling, unquoted, is not in the grammar and the rule must not compile
+    for kw in ["None", "Some", "True", "False", "NONE", "SOME", "TRUE", "FALSE", "nOne", "tRUE", "nil", "null"] {
+        for opt in ["==", "is", "<", "~=", "&="] {
+            let r = SRule {
+                name: "r".into(),
+                ops: vec![("$a".into(), Operand::Raw(format!(".x {opt} {kw}")))],
+                cond: Some(Form::V("$a".into())),
+                ..Default::default()
+            };
+            let rules = vec![r];
+            out(json!({
+                "op": "scenario", "ext": ext_for(&rules, &events[..4]),
+                "rules": rules.iter().map(|r| r.to_json(&mut rng)).collect::<Vec<_>>(),
+                "events": events[..4].iter().map(event_to_json).collect::<Vec<_>>(),
+                "tag": "keyword in another letter case", "nt": true,
+            }));
+        }
+    }
     // indirect: every pair of field values, and missing fields
     let mut evs = vec![];
     let step = if tier == "thorough" { 1 } else { 3 };
